@@ -142,11 +142,75 @@ def check_pair(sink, seed, idx):  # noqa: C901
     sink.case(harness.fp(d1.short(), d2.short(), o1.key(), o2.key()), r1.shape.internal_nodes() >= 2, dict(ident, equal=eq12, s1=str(s1)[:200], s2=str(s2)[:200]))
 
 
+class FKey:
+    """dict key whose __hash__ can be armed to fail once."""
+
+    armed = [0]
+
+    def __init__(self, v):
+        self.v = v
+
+    def __hash__(self):
+        if FKey.armed[0] > 0:
+            FKey.armed[0] -= 1
+            raise RuntimeError('armed key hash')
+        return hash(('FKey', self.v))
+
+    def __eq__(self, o):
+        return type(o) is FKey and o.v == self.v
+
+    def __lt__(self, o):
+        return self.v < o.v
+
+    def __repr__(self):
+        return f'FKey({self.v})'
+
+
+def hash_history_case(sink, seed, idx):
+    """The hash contract must also hold after a hash() that failed (and for treespecs that are later
+    allocated at the address of one whose hash failed)."""
+    from collections import OrderedDict, defaultdict
+
+    rng = gen.case_rng(seed, 'c06hist', idx)
+    n = rng.randrange(1, 5)
+    keys = [FKey(i) for i in rng.sample(range(50), n)]
+    kind = rng.choice([dict, OrderedDict, 'dd'])
+
+    def mk():
+        items = [(FKey(k.v), [U.Leaf(0), (1,)] if j % 2 else U.Leaf(j)) for j, k in enumerate(keys)]
+        inner = defaultdict(int, items) if kind == 'dd' else kind(items)
+        return [inner, {'w': U.CSeq([inner])}] if idx % 2 else inner
+
+    a, b = optree.tree_structure(mk()), optree.tree_structure(mk())
+    ident = dict(gen='c06hist', seed=seed, index=idx, keys=n, kind=str(kind))
+    good = hash(b)
+    sink.check(a == b and hash(a) == good, 'hash-history/before', 'equal treespecs hash equally', ident)
+    FKey.armed[0] = rng.randrange(1, 3)
+    try:
+        hash(a)
+        raised = False
+    except RuntimeError:
+        raised = True
+    FKey.armed[0] = 0
+    sink.check(raised, 'hash-history/failure-propagates', 'a failing key hash propagates out of hash(treespec)', ident)
+    h2 = hash(a)
+    sink.check(a == b and h2 == good and len({a, b}) == 1, 'hash-history/after-failed-hash', 'a == b implies hash(a) == hash(b), also after an earlier hash(a) raised', ident, lambda: (h2, good))
+    # address reuse: drop `a`, allocate fresh equal treespecs
+    del a
+    fresh = [optree.tree_structure(mk()) for _ in range(6)]
+    bad = [hash(c) for c in fresh if not (c == b and hash(c) == good)]
+    sink.check(not bad, 'hash-history/fresh-after-failed-hash', 'fresh treespecs equal to b hash like b (even at the address of a treespec whose hash failed)', ident, lambda: (bad, good))
+    sink.count('hash-history-cases')
+    sink.case(harness.fp('hist', idx % 64, n, str(kind)), True, ident if idx < 2 else None)
+
+
 def run_shard(sink, tier, seed, shard):
     n = harness.scale(50000, 700000, tier)
     i0, step = (shard or {}).get('i', 0), (shard or {}).get('n', 1)
     for idx in range(i0, n, step):
         sink.guard('harness', 'pair', dict(index=idx), lambda: check_pair(sink, seed, idx))
+    for idx in range(i0, harness.scale(800, 20000, tier), step):
+        sink.guard('harness', 'hash-history', dict(index=idx), lambda: hash_history_case(sink, seed, idx))
 
 
 def finalize(sink, tier, seed):
@@ -154,3 +218,4 @@ def finalize(sink, tier, seed):
     sink.require('unequal-pairs', 100)
     sink.require('route-sets')
     sink.require('equal-pairs-across-namespaces')
+    sink.require('hash-history-cases')
